@@ -9,7 +9,8 @@ CLAIM = {
   "text": "Proved: every ReadN over any chunking reader returns exactly the next n bytes of the stream, leaves exactly the rest, never panics, fails iff fewer than n bytes remain; "
           "any two schedules/buffer sizes answer every request script alike (error kind aside); every buffer size option is well-formed and the decoder's largest request fits "
           "the reserved section. Since the decoder sees its input only through ReadN this gives the same headers, messages, CRCs and failure offsets; that lifting and the "
-          "reader-failure clause are decided per run by the Go oracle (chunked vs contiguous event logs), not by a theorem. The error KIND on truncation depends on the chunking "
+          "reader-failure clause are decided per run by the Go oracle (chunked vs contiguous event logs of Decode; count and verdict of CheckIntegrity, also with a reader that "
+          "returns all bytes together with io.EOF), not by a theorem. The error KIND on truncation depends on the chunking "
           "(known finding eof_kind_depends_on_chunking, pinned by TestDecodeMessageData).",
   "note": NOTE_COMMON + " io.ReadAtLeast and the io.Reader contract (0 < n <= len(p) unless EOF/error) are modelled, not verified; hook commit in MANIFEST.hooks."}
 
@@ -42,7 +43,10 @@ def run(ctx):
         ctx.violation({"source": "direct Go oracle: chunked vs contiguous decode / reader failure / read buffer panic", "failing": f})
         found = True
     for kid, js in h.knowns[:5]:
-        if not ctx.known(kid, "truncated stream: contiguous reader reports class %s, chunked reader class %s (1 = io.EOF, 2 = io.ErrUnexpectedEOF), same events" % (js.get("contiguous_err"), js.get("chunked_err"))):
+        a = js.get("contiguous_err", (js.get("contiguous") or [None, None])[-1])
+        b = js.get("chunked_err", (js.get("chunked") or [None, None])[-1])
+        if not ctx.known(kid, "stream ending inside a sequence (%s): contiguous reader reports class %s, fragmenting reader class %s (0 = io.EOF read as end of stream after a "
+                              "complete sequence, 1 = io.EOF, 2 = io.ErrUnexpectedEOF), same events / same count" % (js.get("kind"), a, b)):
             ctx.violation({"source": "direct Go oracle (unlisted finding %s)" % kid, "failing": js})
             found = True
     if os.path.exists(os.path.join(COQ, "Run/RunC08.vo")):
